@@ -6,6 +6,7 @@ import (
 	"log/slog"
 	"math/rand"
 	"sort"
+	"time"
 
 	"github.com/iotaledger/hive.go/ds/reactive"
 	"github.com/iotaledger/hive.go/log"
@@ -288,4 +289,23 @@ func (s *lcSUT) RandomStimulus(r *rand.Rand) core.Ev {
 			return core.Ev{"op": "SetLevel", "m": anyMod(), "l": 1 + r.Intn(3)}
 		}
 	}
+}
+
+// x2probe (manual, not part of the check): does Trigger of an event from inside one of its own callbacks return?
+func init() {
+	core.RegisterCommand("x2probe", func([]string) int {
+		m := module.New(newRootLogger("probe"))
+		done := make(chan bool, 1)
+		go func() {
+			m.ShutdownEvent().OnTrigger(func() { m.ShutdownEvent().Trigger() })
+			done <- m.ShutdownEvent().Trigger()
+		}()
+		select {
+		case r := <-done:
+			fmt.Println("re-entrant Trigger returned; outer Trigger =", r)
+		case <-time.After(2 * time.Second):
+			fmt.Println("re-entrant Trigger of the same event from its own callback did not return within 2s (self-deadlock)")
+		}
+		return 0
+	})
 }
